@@ -71,7 +71,7 @@ def build(ctx):
     def bm_replay(w):
         import numpy as np
         f = real(BM)
-        for kk in (np.array([0.3, 1.7, 0.9, 2.2, 0.4]), np.array([5.0, 0.1]), np.linspace(0.1, 3.0, 9)):
+        for kk in (np.array([0.3, 1.7, 0.9, 2.2, 0.4]), np.array([5.0, 0.1]), np.linspace(0.1, 3.0, 9), np.array([2e6, 3e7, 1.0, 4e9]), np.array([1e-9, 0.0, 1e-12])):
             A = f(kk).toarray()
             m = len(kk)
             W = np.zeros((m, m))
